@@ -134,6 +134,7 @@ let () =
     | "sim_opt" :: "cap" :: v :: _ -> icap := num v
     | "sim_opt" :: "thlog" :: v :: _ -> thlog := (v <> "0")
     | "sim_opt" :: _ -> ()
+    | "rxnowait" :: _ -> ()       (* bytes of an unfinished packet: no event for the model *)
     | "simstart" :: dbg :: _dir :: fl :: _ ->
         let pend = List.filter_map (fun (a, r, tr) -> match build_tree tr with
                                      | Some t -> Some ((addr_of_hex a, n_of_int r), t) | None -> None) !sim_changes in
